@@ -38,17 +38,30 @@ def gen(tier, rng):
                 sc = h[:pos]
                 for nsends in (1, 2):
                     cases.append(c20.pool_case(client, 300, 1, False, nsends, "a@b.c", to, b"hello\r\n", [sc, h, h]))
+    # `test_connection()` of both transports: fails when the connection cannot be set up, `true` exactly when the NOOP is
+    # answered positively
+    greets = [b"220 srv ESMTP\r\n", b"220-srv\r\n220 ready\r\n", b"554 no service\r\n", b"421 busy\r\n"]
+    ehlos = [b"250 srv\r\n", b"250-srv\r\n250 8BITMIME\r\n", b"550 no\r\n", b"421 bye\r\n", b"502 not implemented\r\n"]
+    noops = [b"250 ok\r\n", b"250-a\r\n250 b\r\n", b"421 closing\r\n", b"500 what\r\n", b"451 later\r\n", b"354 go\r\n"]
+    for client in "sa":
+        for g in greets:
+            for e in ehlos[:3] if g.startswith(b"220") else ehlos[:1]:
+                for nn in noops if (g.startswith(b"220") and e.startswith(b"250")) else noops[:1]:
+                    sc = [smtpgen.step(g), smtpgen.step(e), smtpgen.step(nn), smtpgen.step(b"221 bye\r\n")]
+                    cases.append("tconn\t" + client + "\t" + smtpgen.script_field(sc))
     return cases
 
 
 def timing_dependent(case):
+    if case.startswith("tconn"):
+        return True
     # a real client against a real peer with read timeouts: a disagreement is re-run alone before it counts
     return case.split("\t")[0] in ("pool", "wstall", "client", "tls", "sched")
 
 
 def nontrivial(case):
     f = case.split("\t")
-    if f[0] == "pool":
+    if f[0] in ("pool", "tconn"):
         return True
     return len(f[3]) > 1 or ":c" in f[10] or any(not s.split(":")[0].startswith("32") for s in f[10].split(",")[2:])
 
@@ -64,6 +77,9 @@ def distribution(cases):
         d["sync" if f[1] == "s" else "async"] += 1
         if f[0] == "pool":
             d["through_transport"] = d.get("through_transport", 0) + 1
+            continue
+        if f[0] == "tconn":
+            d["test_connection"] = d.get("test_connection", 0) + 1
             continue
         d["prog_" + f[3]] = d.get("prog_" + f[3], 0) + 1
         k = "script_with_close" if ":c" in f[10] else "script_open"
